@@ -14,6 +14,10 @@ ASSUMPTIONS = {
     "P-simplify (C07)": "P-simplify at call sites inside the elimination functions (proved by the C07 obligations)",
     "P-refines": "P-refines (assumed at the algebra layer): refines answers True only for containment",
     "P-refines(exact)": "P-refines exact (assumed at the algebra layer; proved for polyhedra under the ideal LP contract by the C03 obligations in domain H): list-level refines answers True iff containment",
+    "P-empty(exact)": "P-empty (assumed at the compound layer; proved for polyhedra by the C11 obligations): is_empty answers True iff no behaviour satisfies the list",
+    "P-contains": "P-contains (assumed at the compound layer; proved for polyhedra by the C11 obligations): contains_behavior answers True iff every inequality holds, ValueError iff a constrained variable is unassigned",
+    "A9-fmt": "A9-fmt: default float formatting yields a non-empty string over [0-9.e+-]; variable names used in the harnesses are delimited from it (first character a letter other than e)",
+    "contract of same_term_list": "call-site contract of PolyhedralSyntaxAbsoluteTerm.same_term_list (proved by SyntaxAbsoluteTerm.same_term_list[*])",
     "A-card": "cardinality lemma: len(set(L)) == len(L) iff L is duplicate-free (pure mathematics, used by the list abstraction)",
     "A1": "A1: floats are treated as mathematical reals (no rounding, overflow, nan, inf, -0.0); what this hides is what the bounded monitor looks at",
     "A2": "A2: Var equality/hash is name equality (checked by the VCs on Var.__eq__/__hash__), dict iteration order irrelevant",
